@@ -23,8 +23,9 @@ EVAL_COUNTER = "messages_judged"
 REQUIRED = ["messages_judged", "executed_live", "dead_lettered_expired", "dead_retrieved", "boundary_exact", "kind_retry_cross", "kind_resched"]
 CASE_TIMEOUT = 120
 
-TTLS = [1.0, 1.5, 4.0, 3600.0, None]
+TTLS = [1.0, 1.5, 4.0, 3600.0, 90000.0, 172800.0, None]
 DELTAS = [-1.0, -0.000001, 0.0, 0.000001, 1.0]
+LATE_DELTAS = [83100.0, 86400.0, 259200.0 + 7.0]  # a day (or three) after the expiry: arithmetic on days, not only seconds
 KINDS = ["immediate", "delayed_before", "delayed_after", "retry_cross", "retry_inside", "resched"]
 
 
@@ -37,17 +38,19 @@ def gen_cases(tier, seed):
             for kind in KINDS:
                 if ttl is None and kind in ("delayed_after", "retry_cross"):
                     continue
-                ds = DELTAS if kind in ("immediate", "delayed_before") else [0.0]
+                ds = (DELTAS + (LATE_DELTAS if kind == "immediate" else [])) if kind in ("immediate", "delayed_before") else [0.0]
                 if ttl is None:
                     ds = [0.0]
                 for d in ds:
                     items.append({"ttl": ttl, "kind": kind, "delta": d})
-        lats = [None] if broker == "mem" else ([None] if tier == "quick" else [None, 0.004])
-        reps = 1 if tier == "quick" else 3
+        lats = [None] if broker == "mem" else [None, 0.004]
+        phases = [0.0, 0.25, 0.5, 0.999] if tier == "thorough" else [None]
         for lat in lats:
-            for rep in range(reps):
+            for ph in phases:
                 for it in items:
-                    cases.append({"broker": broker, "latency": lat, "seed": rnd.randrange(10**6), **it})
+                    if tier == "quick" and lat is not None and it["kind"] not in ("immediate", "retry_cross", "resched"):
+                        continue
+                    cases.append({"broker": broker, "latency": lat, "seed": rnd.randrange(10**6), "phase": ph if ph is not None else rnd.choice([0.0, 0.25, 0.5, 0.999]), **it})
     return cases
 
 
@@ -76,7 +79,7 @@ async def scenario(loop, case, out, stats, fps, samples):
         r = w.router(retry_policy=policy)
         w.scripted_actor(r, "act")
         await w.conn.message_broker.queue_declare("default")
-        loop.jump(1.0 + random.Random(case["seed"]).choice([0.0, 0.25, 0.5, 0.999]))
+        loop.jump(1.0 + case.get("phase", 0.0))
         t0 = datetime.now()
         ttl_td = timedelta(seconds=ttl) if ttl is not None else None
         kw = dict(ttl=ttl_td, timeout=timedelta(seconds=30), store_result=False)
@@ -120,6 +123,8 @@ async def scenario(loop, case, out, stats, fps, samples):
         worker = w.worker([r], tasks_limit=10, graceful_shutdown_time=3.0, handle_signals=[__import__("signal").SIGUSR1])
         horizon = {"immediate": 2.5, "delayed_before": 6.0, "delayed_after": (ttl or 0) + 4.0, "retry_cross": (ttl or 0) + 5.0,
                    "retry_inside": 3.0, "resched": 9.0}[kind]
+        if ttl is not None and ttl > 100 and kind == "retry_inside":
+            pass
         if ttl is not None and ttl > 100 and kind == "delayed_after":
             horizon = 4.0  # cannot idle for an hour: the clock is stepped past the due time before the worker starts
             await asyncio.sleep(0.5)
@@ -147,7 +152,7 @@ async def scenario(loop, case, out, stats, fps, samples):
         stats["kind_" + kind] += 1
         if lat is None and abs(delta) < 0.001 and kind in ("immediate", "delayed_before") and ttl is not None:
             stats["boundary_exact"] += 1
-        fps.add(f"{broker}/{ttl}/{delta}/{kind}/{lat}")
+        fps.add(f"{broker}/{ttl}/{delta}/{kind}/{lat}/{case.get('phase')}")
         # (1) executed => not expired at the start
         for s in starts:
             if tE is not None:
